@@ -839,7 +839,57 @@ func checkC31UpdateArgs(p *Prog, r *Result, M *FuncNode) {
 			return true
 		})
 		if fills {
-			r.min("UQ", 1)
+			// UQ (fill-in only for an empty map): the assignment that replaces the core map by all cores sits under a condition
+			// that is exactly "the parsed core map is empty" — a disjunction with the quota unpins a bound workload whose limit is 0
+			whyF := ""
+			U.inspectBody(func(n ast.Node) bool {
+				as, ok := n.(*ast.AssignStmt)
+				if !ok || as.Tok != token.ASSIGN {
+					return true
+				}
+				hit := false
+				for _, l := range as.Lhs {
+					if U.objOf(l) == U.objOf(c.Args[2]) {
+						hit = true
+					}
+				}
+				if !hit {
+					return true
+				}
+				// innermost enclosing if
+				var enc *ast.IfStmt
+				U.inspectBody(func(y ast.Node) bool {
+					if is, ok := y.(*ast.IfStmt); ok && is.Body.Pos() <= as.Pos() && as.End() <= is.Body.End() {
+						if enc == nil || is.Pos() > enc.Pos() {
+							enc = is
+						}
+					}
+					return true
+				})
+				okCond := false
+				if enc != nil {
+					cs := exprStr(unparen(enc.Cond))
+					if id, ok := unparen(enc.Cond).(*ast.Ident); ok {
+						// the unbound local
+						if d := U.singleDef(U.objOf(id)); d != nil && strings.HasPrefix(exprStr(d), "len(") && strings.HasSuffix(exprStr(d), ") == 0") {
+							okCond = true
+						}
+					}
+					if strings.HasPrefix(cs, "len(") && strings.HasSuffix(cs, ") == 0") && !strings.Contains(cs, "||") {
+						okCond = true
+					}
+				}
+				if !okCond {
+					cond := "(no condition)"
+					if enc != nil {
+						cond = exprStr(enc.Cond)
+					}
+					whyF = "the core map is replaced by all cores under `" + cond + "`, not only when the parsed core map is empty: a workload that is bound to cores (cpu-bind with cpu limit 0 is valid) or remapped onto the share pool is put on every core of the node when its resources are updated"
+				}
+				return true
+			})
+			r.check2(whyF, "UQ", fmt.Sprintf("%s / translation #%d replaces the core map by all cores only when it is empty", U.Name, i+1), p.pos(c), "the all-cores fill-in sits under `unbound` / `len(cpuMap) == 0` alone")
+			r.min("UQ", 2)
 			r.check(hasUnbound, "UQ", fmt.Sprintf("%s / translation #%d keeps the quota of a workload whose core map was empty", U.Name, i+1), p.pos(c), "remap || unbound, with unbound := len(cpuMap) == 0 taken before the all-cores fill-in",
 				"the update path replaces an empty core map by all cores and then translates with remap = `"+exprStr(c.Args[5])+"`: makeResourceSetting sees a non-empty core map without remap, takes the bound branch and sets the quota to -1 — re-allocating an unbound workload lifts its CPU limit")
 		}
